@@ -470,6 +470,7 @@ func main() {
 
 	altSweep(r, done)
 	surfaceSweep(r, done, outcomes, accepts)
+	edgeSweep(r, done)
 	seqSweep(r, done)
 
 	for _, k := range sortedKeys(total) {
@@ -500,7 +501,7 @@ func main() {
 		"recording producers never fail; Accept headers are well-formed, parameter-free and use q in tenths (C07 owns the rest); produces entries are lower case",
 		"typed entry point = the call sequence of a go-swagger generated handler (RouteInfo, Authorize, BindValidRequest, Respond) written in the harness",
 	)
-	r.Finish("every element of the stated products (sweeps main, deep-accept [thorough], auth, auth-alts, surface, default-realm) is served once by the real Context (APIHandler of the untyped API; the typed call sequence ending in Context.Respond; sweep surface: the same call sequence behind a hand-written RoutableAPI served by NewRoutableContext, Context.Respond called directly without a matched route, Context.NotFound) and judged by the reference; sweep seq: every ordered pair (thorough: also every ordered triple over a smaller alphabet) of steps (operation x handler outcome x Accept x entry point) over a description whose operations have no / a duplicated / a distinct operationId and declare different success codes and produces lists is served by ONE fresh Context, plus one walk per description that passes through every ordered pair on a single Context; every step is judged by the reference AND must give exactly the observation (status, headers, body, producer / Responder / error-responder calls) the same step gives as the first request of a fresh instance; one evaluation = one request; non-trivial = at least one MUST clause of the property applied to the case (its situation label does not start with 'may/') or, in sweep seq, the request was not the first one of its Context (cases are distinct by construction: the enumerator never repeats a (configuration, request, outcome, entry point) tuple nor a sequence)", true)
+	r.Finish("every element of the stated products (sweeps main, deep-accept [thorough], auth, auth-alts, surface, default-realm, edge) is served once by the real Context (APIHandler of the untyped API; the typed call sequence ending in Context.Respond; sweep surface: the same call sequence behind a hand-written RoutableAPI served by NewRoutableContext, Context.Respond called directly without a matched route, Context.NotFound) and judged by the reference; sweep seq: every ordered pair (thorough: also every ordered triple over a smaller alphabet) of steps (operation x handler outcome x Accept x entry point) over a description whose operations have no / a duplicated / a distinct operationId and declare different success codes and produces lists is served by ONE fresh Context, plus one walk per description that passes through every ordered pair on a single Context; every step is judged by the reference AND must give exactly the observation (status, headers, body, producer / Responder / error-responder calls) the same step gives as the first request of a fresh instance; one evaluation = one request; non-trivial = at least one MUST clause of the property applied to the case (its situation label does not start with 'may/') or, in sweep seq, the request was not the first one of its Context (cases are distinct by construction: the enumerator never repeats a (configuration, request, outcome, entry point) tuple nor a sequence)", true)
 }
 
 func countAscending(ls [][]int) int {
@@ -970,4 +971,165 @@ func defaultRealmSweep(r *report.R, done func(*shardStats, int)) {
 		}
 	}
 	done(st, 240000)
+}
+
+// ---- sweep "edge": rare but legal values of every axis, crossed with reduced other axes ----
+
+const mtVnd = "application/vnd.api+json" // a registered type whose name has '.', '-' and '+'
+
+// edgeProduces: spellings and shapes of produces entries the ordinary alphabet lacks.
+var edgeProduces = []string{
+	"text/plain;charset=utf-8",                 // compact: no optional space after ';'
+	"text/plain;\tcharset=utf-8",               // TAB as the optional whitespace
+	"text/plain; charset=utf-8; format=flowed", // several parameters
+	"text/plain; Charset=UTF-8",                // parameter name and value in another case
+	`text/plain; x="a;b=c"`,                    // quoted parameter value containing ';' and '='
+	"text/plain;",                              // empty parameter list
+	"text/plain ; charset=utf-8",               // optional whitespace BEFORE the ';' (RFC 7231 3.1.1.1: OWS ";" OWS)
+	"text/plain\t;charset=utf-8",               // the same with TAB
+	mtVnd,                                      // name with '.', '-', '+'
+	mtVnd + ";charset=utf-8",
+	"text/plain2", // a name that has a registered name as prefix (no producer of its own)
+	"text/pla",    // a name that is a prefix of a registered name (no producer of its own)
+}
+
+func edgeSweep(r *report.R, done func(*shardStats, int)) {
+	plain := func(t string) []Range { return []Range{{t, 10}} }
+	edgeAccepts := [][]Range{nil, plain("*/*"), plain(mtText), plain("text/*"), plain(mtVnd), plain("application/*"), plain("text/plain2"), plain("image/png"),
+		{{mtText, 5}, {mtVnd, 10}}, {{"text/*", 5}, {mtJSON, 5}}}
+	styles := []string{"compact", "spaced", "tab", "q3"}
+	edgeOutcomes := []string{"empty-string", "zero", "nil-slice", "empty-slice", "nil-pointer", "err-typed-nil"}
+	edgeResponses := [][]string{{"200"}, {"204"}, {"299"}, {"200", "204"}, {"226", "299"}}
+	edgeMethods := []string{"GET", "HEAD", "POST", "PUT", "PATCH", "DELETE", "OPTIONS"}
+	long := strings.Repeat("r", 300)
+	edgeRealms := []string{" ", "%s", "100%", "%%", "{x}", "a;b=c", "a=b&c", "tab\there", "line\nbreak", "cr\rlf\n", "nul\x00", "del\x7f", "\xff\xfe", "\U0001F600", "a\u2028b", "\ufeffbom", "\U0001F600\"\\", long}
+	edgeCreds := []string{"wrong-lowercase-scheme", "wrong-uppercase-scheme", "wrong-empty-user", "wrong-colon-in-password", "wrong-non-ascii"}
+	vias := []string{"untyped", "typed", "routable"}
+	r.Set("axes_edge", map[string]any{
+		"produces_spellings": edgeProduces,
+		"produces_lists":     "for every edge entry e: [e], [e, json], [json, e], [e, text/plain], [text/plain, e], [xml, e]",
+		"accept":             renderAll(edgeAccepts),
+		"accept_spellings":   styles,
+		"handler_values":     edgeOutcomes,
+		"response_sets":      edgeResponses,
+		"methods":            edgeMethods,
+		"realms":             fmt.Sprintf("%q", edgeRealms),
+		"credentials":        edgeCreds,
+		"entry_points":       append(append([]string(nil), vias...), "direct"),
+	})
+
+	// (1) produces spellings
+	type pk struct{ list []string }
+	var pks []pk
+	for _, e := range edgeProduces {
+		pks = append(pks, pk{[]string{e}}, pk{[]string{e, mtJSON}}, pk{[]string{mtJSON, e}}, pk{[]string{e, mtText}}, pk{[]string{mtText, e}}, pk{[]string{mtXML, e}})
+	}
+	resp200 := [][]string{{"200"}}
+	enum.Parallel(len(pks), r.OutOfTime, func(i int) {
+		produces := pks[i].list
+		doc, regs := loadDoc(Config{Produces: produces, Where: "op", Responses: resp200})
+		for _, mode := range modes {
+			e := buildEnvWith(Config{Mode: mode, Produces: produces, Where: "op", Responses: resp200, Extra: []string{mtVnd}, NoDocs: true}, doc, regs)
+			st := &shardStats{outcomes: map[string]int64{}}
+			c := Case{Sweep: "edge", Mode: mode, Produces: produces, Where: "op", Responses: resp200[0], Target: "op"}
+			for _, acc := range edgeAccepts {
+				c.NoAccept, c.Accept = acc == nil, acc
+				for _, m := range []string{"GET", "HEAD"} {
+					c.Method = m
+					for _, oc := range []string{"string", "responder", "mw-error", "err-api"} {
+						c.Outcome = oc
+						for _, via := range vias {
+							c.Via, c.Direct = via, ""
+							st.run(r, e, &c)
+						}
+						c.Via, c.Direct = "direct", "nil-route"
+						st.run(r, e, &c)
+					}
+				}
+			}
+			done(st, 600000+i)
+		}
+	})
+
+	// (2) Accept spellings, (3) handler values, response sets and methods: one description each
+	lists2 := [][]string{{mtText, mtXML}, {"text/plain; charset=utf-8"}, {mtText, mtJSON}}
+	enum.Parallel(len(lists2), r.OutOfTime, func(i int) {
+		produces := lists2[i]
+		doc, regs := loadDoc(Config{Produces: produces, Where: "op", Responses: edgeResponses, Methods: edgeMethods})
+		for _, mode := range []string{"json", "none"} {
+			e := buildEnvWith(Config{Mode: mode, Produces: produces, Where: "op", Responses: edgeResponses, Methods: edgeMethods, NoDocs: true}, doc, regs)
+			st := &shardStats{outcomes: map[string]int64{}}
+			c := Case{Sweep: "edge", Mode: mode, Produces: produces, Where: "op", Responses: edgeResponses[0], Target: "op", Method: "GET"}
+			for _, style := range styles {
+				c.AcceptStyle = style
+				for _, acc := range acceptsMain {
+					if acc == nil {
+						continue
+					}
+					c.NoAccept, c.Accept = false, acc
+					for _, oc := range []string{"string", "err-api"} {
+						c.Outcome = oc
+						for _, via := range vias {
+							c.Via = via
+							st.run(r, e, &c)
+						}
+					}
+				}
+			}
+			c.AcceptStyle = ""
+			for _, acc := range [][]Range{nil, plain(mtText)} {
+				c.NoAccept, c.Accept = acc == nil, acc
+				for _, rs := range edgeResponses {
+					c.Responses = rs
+					for _, m := range edgeMethods {
+						c.Method = m
+						c.Body = ""
+						if m == "PUT" || m == "PATCH" {
+							c.Body = "json"
+						}
+						for _, oc := range append([]string{"string", "nil", "responder"}, edgeOutcomes...) {
+							c.Outcome = oc
+							for _, via := range vias {
+								c.Via = via
+								st.run(r, e, &c)
+							}
+						}
+					}
+				}
+			}
+			done(st, 610000+i)
+		}
+	})
+
+	// (4) realms and credentials
+	type rk struct{ ctor, realm string }
+	var rks []rk
+	for _, ct := range []string{"BasicAuthRealm", "BasicAuthRealmCtx"} {
+		for _, rl := range edgeRealms {
+			rks = append(rks, rk{ct, rl})
+		}
+		rks = append(rks, rk{ct, "custom"})
+	}
+	producesA := []string{mtText}
+	enum.Parallel(len(rks), r.OutOfTime, func(i int) {
+		k := rks[i]
+		e := buildEnv(Config{Mode: "json", Produces: producesA, Where: "op", Responses: resp200, AuthCtor: k.ctor, AuthRealm: k.realm, NoDocs: true})
+		st := &shardStats{outcomes: map[string]int64{}}
+		c := Case{Sweep: "edge", Mode: "json", Produces: producesA, Where: "op", Responses: resp200[0], Target: "op", NoAccept: true, Outcome: "string"}
+		creds := []string{"none", "wrong"}
+		if k.realm == "custom" {
+			creds = edgeCreds
+		}
+		for _, cr := range creds {
+			c.Auth = &Auth{Ctor: k.ctor, Realm: k.realm, Creds: cr}
+			for _, m := range []string{"GET", "HEAD"} {
+				c.Method = m
+				for _, via := range vias {
+					c.Via = via
+					st.run(r, e, &c)
+				}
+			}
+		}
+		done(st, 620000+i)
+	})
 }
